@@ -84,6 +84,13 @@ def random_table(seed):
                 "strEmpty": "", "str": lit[0]}
     t["litint"] = (t["def"]["intPos"], t["def"]["intPos"] + 1)
     t["typ"]["LitInt"] = "Literal[%d, %d]" % t["litint"]
+    # the inner types of the composite classes vary too (the class is the constructor, not its arguments)
+    inner = r.choice((("List[str]", "['a', 'b']"), ("List[int]", "[1, 2]"), ("List[float]", "[0.5]")))
+    t["typ"]["ListStr"], t["code"]["ListStr"] = inner
+    # (argparse falls back to the *last* member of a Union: the class is "a Union ending in str")
+    t["typ"]["UnionIntStr"] = r.choice(("Union[int, str]", "Union[float, str]", "Union[int, float, str]"))
+    tup = r.choice((("Tuple[int, str]", "(5, 'x')"), ("Tuple[str, int]", "('x', 5)"), ("Tuple[int, int, int]", "(1, 2, 3)")))
+    t["typ"]["TupleIntStr"], t["code"]["TupleIntStr"], t["code"]["ret_TupleIntStr"] = tup[0], tup[1], tup[1]
 
     def sentence():
         n = r.randint(2, 9)
